@@ -317,6 +317,11 @@ def part_len(p):
 
 
 def apply_escapes(b, escapes):
-    for a, r in escapes:
-        b = b.replace(a, r)
+    """b: the bytes of one item (byte / character).  An escape is either a (pattern, replacement) pair of a `replace` call or
+    ('tbl', {byte: bytes}): the per-byte rewriting table of a summarised per-byte / per-char loop (models.PayIt)."""
+    for e in escapes:
+        if e[0] == "tbl":
+            b = b"".join(e[1][x] for x in b)
+        else:
+            b = b.replace(e[0], e[1])
     return b
